@@ -96,8 +96,19 @@ def main():
         # frame in the taurex package) on an input the module generated, the real code failed on an input of the
         # quantified domain -> a violation with the traceback as replay; anything raised by our own code is infrastructure
         tb = traceback.extract_tb(e.__traceback__)
-        inner = tb[-1].filename if tb else ''
-        if '/taurex/' in inner.replace('\\', '/') and '/verif/' not in inner:
+        # walking outwards from the raise site, which comes first: a frame of the package under test, or a frame of ours?
+        # (library frames - numpy, scipy, h5py - raised on behalf of whoever called them)
+        here = os.path.dirname(os.path.abspath(__file__))
+        inner = ''
+        for fr in reversed(tb):
+            fn = fr.filename.replace('\\', '/')
+            if fn.startswith(here):
+                break
+            if '/taurex/' in fn and '/site-packages/' not in fn:
+                inner = fn
+                tb = tb[:tb.index(fr) + 1]
+                break
+        if inner:
             ctx.violation('uncaught-exception-from-implementation:%s:%s' % (type(e).__name__, os.path.basename(inner)),
                           'the implementation raised %r inside %s:%d (%s) on a generated input that the check does not '
                           'guard' % (e, inner, tb[-1].lineno, tb[-1].name), dict(traceback=traceback.format_exc()[-3000:]))
